@@ -98,6 +98,19 @@ var perturbations = []perturbation{
 			return []string{l}
 		})
 	}},
+	{"blanks-with-spaces", func(s []byte, r *rand.Rand) []byte {
+		// empty lines between two code lines hold blanks or a tab (editors leave such lines behind)
+		starts := tokenStartLines(s)
+		lines := strings.Split(string(s), "\n")
+		for i, l := range lines {
+			lineCom := func(j int) bool { return j >= 0 && j < len(lines) && strings.HasPrefix(strings.TrimSpace(lines[j]), "//") }
+			simple := !strings.Contains(string(s), "`") && !strings.Contains(string(s), "/*")
+			if l == "" && i > 0 && i+1 < len(lines) && (starts[i] || simple && lineCom(i-1)) && (starts[i+2] || simple && lineCom(i+1)) {
+				lines[i] = []string{" ", "\t", "  \t "}[r.Intn(3)]
+			}
+		}
+		return []byte(strings.Join(lines, "\n"))
+	}},
 	{"blank-inflate", func(s []byte, r *rand.Rand) []byte {
 		starts := tokenStartLines(s)
 		lines := strings.Split(string(s), "\n")
@@ -508,12 +521,20 @@ func checkC03(c *Ctx) {
 		f := files[i]
 		r := rand.New(rand.NewSource(seeds[i]))
 		order := r.Perm(len(perturbations))
-		for k := 0; k < perFile && k < len(order); k++ {
+		nPert := perFile
+		if strings.Contains(f.Path, "/corpus/extra/") {
+			// the small hand-written files get every perturbation, so that every listed finding is reproduced on every run
+			nPert = len(perturbations)
+			for k := range order {
+				order[k] = k
+			}
+		}
+		for k := 0; k < nPert && k < len(order); k++ {
 			p := perturbations[order[k]]
-			if k == 0 {
+			if k == 0 && nPert < len(perturbations) {
 				p = perturbations[4] // always include CRLF
 			}
-			if k == 1 {
+			if k == 1 && nPert < len(perturbations) {
 				p = perturbations[len(perturbations)-1-r.Intn(3)] // and one of the dense-comment / line-directive perturbations
 			}
 			src := p.Fn(f.Src, r)
@@ -524,6 +545,9 @@ func checkC03(c *Ctx) {
 				in := key
 				if p.Name == "crlf" {
 					in = "crlf|" + f.Path
+				}
+				if p.Name == "blanks-with-spaces" {
+					in = "blank-line-with-spaces|" + f.Path
 				}
 				if sig == "generic-alias-comment-order" {
 					in = "generic-alias|" + key
